@@ -88,6 +88,7 @@ pub struct BlameHunk {
     pub committer_time: i64,
     pub committer_tz: String,
     pub is_boundary: bool,
+    pub filename: String,
 }
 //#end
 //#item file=src/commands/blame.rs kind=struct name=GitAiBlameOptions
@@ -211,15 +212,48 @@ fn opq_str_from<'a>(s: &'a str, pos: usize) -> (r: &'a str)
 fn opq_parse_u32(s: &str) -> (r: Result<u32, PErr>)
     ensures r is Ok <==> u32_of(s@) is Some, r is Ok ==> r->Ok_0 == u32_of(s@).unwrap(),
 { unimplemented!() }
-/// what `-L <arg>` must be read as, over std's own reading of the pieces: `a,b` -> (a, b) in THIS order; a lone number `a`
-/// -> (a, a); anything else is refused.  (What `u32_of` accepts is std's: see REPORT, findings 2 and 3.)
-pub open spec fn plr(s: Seq<char>) -> Option<(u32, u32)> {
-    match first_comma(s) {
-        Some(p) => match (u32_of(before(s, p)), u32_of(after(s, p + 1))) { (Some(a), Some(b)) => Some((a, b)), _ => None },
-        None => match u32_of(s) { Some(a) => Some((a, a)), None => None },
+/// `s.strip_prefix('+')`: the rest after a leading '+', if there is one (std, uninterpreted)
+pub uninterp spec fn plus_rest(s: Seq<char>) -> Option<Seq<char>>;
+#[verifier::external_body]
+fn opq_strip_plus<'a>(s: &'a str) -> (r: Option<&'a str>)
+    ensures r is Some <==> plus_rest(s@) is Some, r is Some ==> r.unwrap()@ == plus_rest(s@).unwrap(),
+{ unimplemented!() }
+//#item file=src/commands/blame.rs kind=const name=LINE_RANGE_TO_END_OF_FILE
+const LINE_RANGE_TO_END_OF_FILE: u32 = u32::MAX;
+//#end
+/// the end of an OPEN range (`-L a`, `-L a,`): a marker that region pb_ranges (prepare_blame_request) replaces by the file's last line
+pub open spec fn to_eof() -> u32 { u32::MAX }
+/// git-blame(1): `a,+n` = n lines starting at a, i.e. a ..= a+n-1; an empty range (n = 0) is refused; std's parse::<u32> would accept a
+/// second '+' (`a,++n`), git does not: refused.  None = this form does not apply / is refused; Some(None) = a+n-1 does not fit
+pub open spec fn count_form(a: Seq<char>, c: Seq<char>) -> Option<Option<(u32, u32)>> {
+    match (u32_of(a), u32_of(c)) {
+        (Some(x), Some(n)) => if n > 0 && plus_rest(c) is None { Some(if x + (n - 1) <= u32::MAX { Some((x, (x + (n - 1)) as u32)) } else { None }) } else { None },
+        _ => None,
     }
 }
-//#item file=src/commands/blame.rs kind=fn name=parse_line_range opaque='[{"expr": "range_str.find(\u0027,\u0027)", "call": "opq_find_comma(range_str)"}, {"expr": "&range_str[..dash_pos]", "call": "opq_str_upto(range_str, dash_pos)"}, {"expr": "&range_str[dash_pos + 1..]", "call": "opq_str_from(range_str, dash_pos + 1)"}, {"expr": "start_str.parse::<u32>()", "call": "opq_parse_u32(start_str)"}, {"expr": "end_str.parse::<u32>()", "call": "opq_parse_u32(end_str)"}, {"expr": "range_str.parse::<u32>()", "call": "opq_parse_u32(range_str)"}]'
+/// the statement `if let (Ok(start), Ok(count)) = (..parse(), ..parse()) && count > 0 && !count_str.starts_with('+') { return
+/// start.checked_add(count - 1).map(|end| (start, end)); }` (a let-chain whose header the normaliser cannot combine with rule O1): TRUSTED
+/// to compute count_form; the replay sweep runs the original statement against git's reading
+#[verifier::external_body]
+fn opq_count_form(a: &str, c: &str) -> (r: Option<Option<(u32, u32)>>)
+    ensures r == count_form(a@, c@),
+{ unimplemented!() }
+/// what `-L <arg>` means (git-blame(1)), over std's reading of the numbers: `a,b` -> (a, b) in THIS order; `a,+n` -> (a, a+n-1);
+/// `a` alone and `a,` -> from a to the end of the file (to_eof); anything else is refused
+pub open spec fn plr(s: Seq<char>) -> Option<(u32, u32)> {
+    match first_comma(s) {
+        Some(p) => {
+            let a = before(s, p); let b = after(s, p + 1);
+            match plus_rest(b) {
+                Some(c) => match count_form(a, c) { Some(r) => r, None => None },
+                None => if b.len() == 0 { match u32_of(a) { Some(x) => Some((x, to_eof())), None => None } }
+                        else { match (u32_of(a), u32_of(b)) { (Some(x), Some(y)) => Some((x, y)), _ => None } },
+            }
+        },
+        None => match u32_of(s) { Some(x) => Some((x, to_eof())), None => None },
+    }
+}
+//#item file=src/commands/blame.rs kind=fn name=parse_line_range opaque='[{"stmt_from": "if let (Ok(start), Ok(count)) = (start_str.parse::<u32>(), count_str.parse::<u32>())\n                && count > 0\n                && !count_str.starts_with(\u0027+\u0027)\n            {", "call": "if let Some(r) = opq_count_form(start_str, count_str) { return r; }"}, {"expr": "range_str.find(\u0027,\u0027)", "call": "opq_find_comma(range_str)"}, {"expr": "&range_str[..dash_pos]", "call": "opq_str_upto(range_str, dash_pos)"}, {"expr": "&range_str[dash_pos + 1..]", "call": "opq_str_from(range_str, dash_pos + 1)"}, {"expr": "end_str.strip_prefix(\u0027+\u0027)", "call": "opq_strip_plus(end_str)"}, {"expr": "start_str.parse::<u32>()", "call": "opq_parse_u32(start_str)"}, {"expr": "end_str.parse::<u32>()", "call": "opq_parse_u32(end_str)"}, {"expr": "range_str.parse::<u32>()", "call": "opq_parse_u32(range_str)"}]'
 fn parse_line_range(range_str: &str) -> (r_: Option<(u32, u32)>)
 //@     ensures r_ == plr(range_str@),
 {
@@ -227,16 +261,31 @@ fn parse_line_range(range_str: &str) -> (r_: Option<(u32, u32)>)
         let start_str = opq_str_upto(range_str, dash_pos);
         let end_str = opq_str_from(range_str, dash_pos + 1);
 
+        // `<start>,+<count>`: <count> lines starting at <start> (git-blame(1)); an empty range is refused, as git does
+        if let Some(count_str) = opq_strip_plus(end_str) {
+            if let Some(r) = opq_count_form(start_str, count_str) { return r; }
+            return None;
+        }
+
+        // `<start>,` spans from <start> to the end of the file (git-blame(1))
+        if end_str.is_empty() {
+            return opq_parse_u32(start_str)
+                .ok()
+                .map(|start| /*@< -> (c_: (u32, u32)) ensures c_ == (start, to_eof()) { >@*/(start, LINE_RANGE_TO_END_OF_FILE)/*@< } >@*/);
+        }
+
         if let (Ok(start), Ok(end)) = (opq_parse_u32(start_str), opq_parse_u32(end_str)) {
             return Some((start, end));
         }
     } else if let Ok(line) = opq_parse_u32(range_str) {
-        return Some((line, line));
+        // `<start>` alone spans from <start> to the end of the file (git-blame(1)), not the single line
+        return Some((line, LINE_RANGE_TO_END_OF_FILE));
     }
 
     None
 }
 //#end
+
 
 /// git blame's column width: `--abbrev=<n>` (default 7, at least 1) plus one digit, the one a boundary commit's `^` takes
 pub open spec fn abbrev_base(o: GitAiBlameOptions) -> int { let n = match o.abbrev { Some(n) => n as int, None => 7 }; if n < 1 { 1 } else { n } }
@@ -354,10 +403,12 @@ pub open spec fn all_wf(hs: Seq<BlameHunk>) -> bool { forall|k: int| 0 <= k < hs
 /// what every line of a hunk inherits from it: the commit and its metadata, as plain values (not the extent, not the label
 /// populate_ai_human_authors adds)
 pub struct HV { pub commit: Seq<char>, pub abbrev: Seq<char>, pub author: Seq<char>, pub email: Seq<char>, pub time: i64, pub tz: Seq<char>,
-                pub committer: Seq<char>, pub committer_email: Seq<char>, pub committer_time: i64, pub committer_tz: Seq<char>, pub boundary: bool }
+                pub committer: Seq<char>, pub committer_email: Seq<char>, pub committer_time: i64, pub committer_tz: Seq<char>, pub boundary: bool,
+                /// the path git reports for the hunk (`filename <path>` of the blame group): the path the file had in the originating commit; empty = none reported
+                pub path: Seq<char> }
 pub open spec fn hv(h: BlameHunk) -> HV {
     HV { commit: h.commit_sha@, abbrev: h.abbrev_sha@, author: h.original_author@, email: h.author_email@, time: h.author_time, tz: h.author_tz@,
-         committer: h.committer@, committer_email: h.committer_email@, committer_time: h.committer_time, committer_tz: h.committer_tz@, boundary: h.is_boundary }
+         committer: h.committer@, committer_email: h.committer_email@, committer_time: h.committer_time, committer_tz: h.committer_tz@, boundary: h.is_boundary, path: h.filename@ }
 }
 /// one reported line: its number in the blamed revision, its number in the originating commit, the commit's data
 pub struct LineRec { pub line: int, pub orig: int, pub h: HV }
@@ -405,14 +456,17 @@ pub open spec fn shown(r: Found, o: GitAiBlameOptions, git_author: Seq<char>) ->
 pub open spec fn no_note_name(o: GitAiBlameOptions, git_author: Seq<char>) -> Seq<char> {
     if o.mark_unknown { "Unknown"@ } else if o.return_human_authors_as_human { human_str() } else { git_author }
 }
+/// the path the originating commit's note is searched for: the path the file had IN THAT COMMIT (what git reports for the hunk;
+/// region bh_parse of unit porcelain keeps it), the path given on the command line only when git reported none
+pub open spec fn npath(h: HV, file: Seq<char>) -> Seq<char> { if h.path.len() == 0 { file } else { h.path } }
 /// THE per-line clause of C09.  The line of record `rec` is reported under `name`: the note of rec's COMMIT is asked about
-/// rec's ORIGINAL line number; the line is the session's exactly when that note lists it (then the session is a key of the
-/// prompt table `pk`), else the author git blames.  `file` is the path the note is searched for: the code passes the path given
-/// on the command line for EVERY commit - a BlameHunk does not carry the path the file had in the originating commit, so the
-/// property's `for the path the file had in that commit` cannot be stated for this data structure (REPORT finding 1).
+/// rec's ORIGINAL line number for the path the file had in that commit (npath); the line is the session's exactly when that
+/// note lists it (then the session is a key of the prompt table `pk`), else the author git blames.  `file` is the command-line
+/// path (the fallback of npath).  "Renaming a file without editing it changes no line's attribution": the record of a line - commit,
+/// original number, original path - is what git reports for it, before and after the rename.
 pub open spec fn rec_ok(name: Seq<char>, rec: LineRec, file: Seq<char>, o: GitAiBlameOptions, pk: ISet<Seq<char>>) -> bool {
     match note_of(rec.h.commit) {
-        Some(log) => 0 <= rec.orig <= u32::MAX && exists|r: Found| #[trigger] gla_post(log, file, rec.orig as u32, r) && name == shown(r, o, rec.h.author)
+        Some(log) => 0 <= rec.orig <= u32::MAX && exists|r: Found| #[trigger] gla_post(log, npath(rec.h, file), rec.orig as u32, r) && name == shown(r, o, rec.h.author)
                         && (r is Some ==> r.unwrap().1 is Some && pk.contains(r.unwrap().1.unwrap()@)),
         None => name == no_note_name(o, rec.h.author),
     }
@@ -445,8 +499,8 @@ proof fn lemma_rec_mono(name: Seq<char>, rec: LineRec, file: Seq<char>, o: GitAi
 {
     match note_of(rec.h.commit) {
         Some(log) => {
-            let r = choose|r: Found| #[trigger] gla_post(log, file, rec.orig as u32, r) && name == shown(r, o, rec.h.author) && (r is Some ==> r.unwrap().1 is Some && pk.contains(r.unwrap().1.unwrap()@));
-            assert(gla_post(log, file, rec.orig as u32, r) && name == shown(r, o, rec.h.author) && (r is Some ==> r.unwrap().1 is Some && pk2.contains(r.unwrap().1.unwrap()@)));
+            let r = choose|r: Found| #[trigger] gla_post(log, npath(rec.h, file), rec.orig as u32, r) && name == shown(r, o, rec.h.author) && (r is Some ==> r.unwrap().1 is Some && pk.contains(r.unwrap().1.unwrap()@));
+            assert(gla_post(log, npath(rec.h, file), rec.orig as u32, r) && name == shown(r, o, rec.h.author) && (r is Some ==> r.unwrap().1 is Some && pk2.contains(r.unwrap().1.unwrap()@)));
         },
         None => {},
     }
@@ -480,6 +534,11 @@ fn opq_fetch_note(sha: &String) -> (r: Option<AuthorshipLog>)
 fn opq_cache_put(c: &mut NoteCache, k: String, v: &Option<AuthorshipLog>)
     ensures final(c)@ == old(c)@.insert(k, *v),
 { unimplemented!() }
+/// `String::is_empty`
+#[verifier::external_body]
+fn opq_is_empty(s: &String) -> (r: bool)
+    ensures r == (s@.len() == 0),
+{ unimplemented!() }
 #[verifier::external_body]
 fn opq_owned(s: String) -> (r: String)
     ensures r@ == s@,
@@ -508,7 +567,7 @@ pub open spec fn slice_rem(rem: Seq<&BlameHunk>, hs: Seq<BlameHunk>) -> bool {
     rem.len() == hs.len() && forall|i: int| 0 <= i < hs.len() ==> *(#[trigger] rem[i]) == hs[i]
 }
 
-//#item file=src/commands/blame.rs kind=fn name=overlay_ai_authorship opaque='[{"expr": "commit_authorship_cache.get(&hunk.commit_sha)", "call": "opq_cache_get(&commit_authorship_cache, &hunk.commit_sha)"}, {"expr": "cached.clone()", "call": "opq_clone_note(cached)"}, {"expr": "get_reference_as_authorship_log_v3(repo, &hunk.commit_sha).ok()", "call": "opq_fetch_note(&hunk.commit_sha)"}, {"expr": "commit_authorship_cache.insert(hunk.commit_sha.clone(), authorship.clone())", "call": "opq_cache_put(&mut commit_authorship_cache, hunk.commit_sha.clone(), &authorship)"}, {"expr": "prompt_commits\n                            .entry(prompt_hash.clone())\n                            .or_default()\n                            .insert(hunk.commit_sha.clone())", "call": "opq_note_commit(&mut prompt_commits, &prompt_hash, &hunk.commit_sha)"}, {"expr": "prompt_records.insert(prompt_hash, prompt_record.clone())", "call": "opq_record_prompt(&mut prompt_records, prompt_hash, &prompt_record)"}, {"expr": "CheckpointKind::Human.to_str().to_string()", "call": "opq_owned(CheckpointKind::Human.to_str())"}, {"expr": "commit_authorship_cache\n        .into_iter()\n        .filter_map(|(_, log)| log)\n        .collect()", "call": "opq_logs_seen(commit_authorship_cache)"}, {"expr": "prompt_commits\n        .into_iter()\n        .map(|(hash, commits)| {\n            let mut commits_vec: Vec<String> = commits.into_iter().collect();\n            commits_vec.sort();\n            (hash, commits_vec)\n        })\n        .collect()", "call": "opq_commits_sorted(prompt_commits)"}]'
+//#item file=src/commands/blame.rs kind=fn name=overlay_ai_authorship opaque='[{"expr": "commit_authorship_cache.get(&hunk.commit_sha)", "call": "opq_cache_get(&commit_authorship_cache, &hunk.commit_sha)"}, {"expr": "cached.clone()", "call": "opq_clone_note(cached)"}, {"expr": "get_reference_as_authorship_log_v3(repo, &hunk.commit_sha).ok()", "call": "opq_fetch_note(&hunk.commit_sha)"}, {"expr": "commit_authorship_cache.insert(hunk.commit_sha.clone(), authorship.clone())", "call": "opq_cache_put(&mut commit_authorship_cache, hunk.commit_sha.clone(), &authorship)"}, {"expr": "prompt_commits\n                            .entry(prompt_hash.clone())\n                            .or_default()\n                            .insert(hunk.commit_sha.clone())", "call": "opq_note_commit(&mut prompt_commits, &prompt_hash, &hunk.commit_sha)"}, {"expr": "prompt_records.insert(prompt_hash, prompt_record.clone())", "call": "opq_record_prompt(&mut prompt_records, prompt_hash, &prompt_record)"}, {"expr": "CheckpointKind::Human.to_str().to_string()", "call": "opq_owned(CheckpointKind::Human.to_str())"}, {"expr": "commit_authorship_cache\n        .into_iter()\n        .filter_map(|(_, log)| log)\n        .collect()", "call": "opq_logs_seen(commit_authorship_cache)"}, {"expr": "prompt_commits\n        .into_iter()\n        .map(|(hash, commits)| {\n            let mut commits_vec: Vec<String> = commits.into_iter().collect();\n            commits_vec.sort();\n            (hash, commits_vec)\n        })\n        .collect()", "call": "opq_commits_sorted(prompt_commits)"}, {"expr": "hunk.filename.is_empty()", "call": "opq_is_empty(&hunk.filename)"}]'
 fn overlay_ai_authorship(
     repo: &Repository,
     blame_hunks: &[BlameHunk],
@@ -565,12 +624,20 @@ fn overlay_ai_authorship(
 
         // If we have AI authorship data, look up the author for lines in this hunk
         if let Some(authorship_log) = authorship_log {
+            // The note of the originating commit lists the file under the path it had in THAT commit
+            let note_path = if opq_is_empty(&hunk.filename) {
+                file_path
+            } else {
+                hunk.filename.as_str()
+            };
+            //@ let ghost np = npath(hv(h), fp);
+            //@ proof { assert(note_path@ == np); }
             // Check each line in this hunk for AI authorship using compact schema
             // IMPORTANT: Use the original line numbers from the commit, not the current line numbers
             let num_lines = hunk.range.1 - hunk.range.0 + 1;
             for i in it_1: 0..num_lines
 //@     invariant
-//@         hunk_wf(h), h == *hunk, o == *options, fp == file_path@, Some(authorship_log) == note_of(h.commit_sha@),
+//@         hunk_wf(h), h == *hunk, o == *options, fp == file_path@, np == npath(hv(h), fp), note_path@ == np, Some(authorship_log) == note_of(h.commit_sha@),
 //@         num_lines == hlen(h),
 //@         lines_ok(line_authors@, f0 + flat1(h).take(it_1.index@), fp, o, pkeys(prompt_records)),
             {
@@ -585,11 +652,11 @@ fn overlay_ai_authorship(
 
                 if let Some((author, prompt_hash, prompt)) = authorship_log.get_line_attribution(
                     repo,
-                    file_path,
+                    note_path,
                     orig_line_num,
                     &mut foreign_prompts_cache,
                 ) {
-//@ proof { rw = Some((author, prompt_hash, prompt)); assert(gla_post(authorship_log, fp, orig_line_num, rw)); lemma_found_has_hash(authorship_log, fp, orig_line_num, rw); }
+//@ proof { rw = Some((author, prompt_hash, prompt)); assert(gla_post(authorship_log, np, orig_line_num, rw)); lemma_found_has_hash(authorship_log, np, orig_line_num, rw); }
                     // If this line is AI-assisted, display the tool name; otherwise the human username
                     if let Some(prompt_record) = prompt {
                         let prompt_hash = prompt_hash.unwrap();
@@ -626,7 +693,7 @@ fn overlay_ai_authorship(
 //@     let pk2 = pkeys(prompt_records);
 //@     assert(pk0.subset_of(pk2));
 //@     assert(line_authors@.contains_key(current_line_num) && line_authors@[current_line_num]@ == shown(rw, o, h.original_author@));
-//@     assert(gla_post(authorship_log, fp, rec.orig as u32, rw));
+//@     assert(gla_post(authorship_log, npath(rec.h, fp), rec.orig as u32, rw));
 //@     assert(rw is Some ==> pk2.contains(rw.unwrap().1.unwrap()@));
 //@     assert(rec_ok(line_authors@[current_line_num]@, rec, fp, o, pk2));
 //@     lemma_lines_push(ma, fk, fp, o, pk0, pk2, current_line_num, line_authors@[current_line_num], rec);
@@ -740,7 +807,7 @@ proof fn lemma_cut(nh: BlameHunk, h: BlameHunk, a: int, b: int)
 }
 
 impl Repository {
-//#item file=src/commands/blame.rs kind=fn name=populate_ai_human_authors impl="Repository" opaque='[{"expr": "commit_authorship_cache.get(&hunk.commit_sha)", "call": "opq_cache_get(&commit_authorship_cache, &hunk.commit_sha)"}, {"expr": "cached.clone()", "call": "opq_clone_note(cached)"}, {"expr": "get_reference_as_authorship_log_v3(self, &hunk.commit_sha).ok()", "call": "opq_fetch_note(&hunk.commit_sha)"}, {"expr": "commit_authorship_cache.insert(hunk.commit_sha.clone(), authorship.clone())", "call": "opq_cache_put(&mut commit_authorship_cache, hunk.commit_sha.clone(), &authorship)"}, {"expr": "prompt_record.human_author.clone()", "call": "opq_clone_opt(&prompt_record.human_author)"}, {"expr": "line_authors.first().cloned().flatten()", "call": "opq_first_flat(&line_authors)"}, {"expr": "line_authors.iter().enumerate()", "call": "opq_enumerate(&line_authors)"}, {"expr": "author.clone()", "call": "opq_clone_opt(author)"}, {"expr": "author_flat != current_author", "call": "opq_opt_ne(&author_flat, &current_author)"}, {"expr": "hunk.clone()", "call": "opq_clone_hunk(&hunk)"}, {"expr": "current_author.clone()", "call": "opq_clone_opt(&current_author)"}, {"expr": "line_authors.into_iter().flatten().next()", "call": "opq_first_some(line_authors)"}]'
+//#item file=src/commands/blame.rs kind=fn name=populate_ai_human_authors impl="Repository" opaque='[{"expr": "commit_authorship_cache.get(&hunk.commit_sha)", "call": "opq_cache_get(&commit_authorship_cache, &hunk.commit_sha)"}, {"expr": "cached.clone()", "call": "opq_clone_note(cached)"}, {"expr": "get_reference_as_authorship_log_v3(self, &hunk.commit_sha).ok()", "call": "opq_fetch_note(&hunk.commit_sha)"}, {"expr": "commit_authorship_cache.insert(hunk.commit_sha.clone(), authorship.clone())", "call": "opq_cache_put(&mut commit_authorship_cache, hunk.commit_sha.clone(), &authorship)"}, {"expr": "prompt_record.human_author.clone()", "call": "opq_clone_opt(&prompt_record.human_author)"}, {"expr": "line_authors.first().cloned().flatten()", "call": "opq_first_flat(&line_authors)"}, {"expr": "line_authors.iter().enumerate()", "call": "opq_enumerate(&line_authors)"}, {"expr": "author.clone()", "call": "opq_clone_opt(author)"}, {"expr": "author_flat != current_author", "call": "opq_opt_ne(&author_flat, &current_author)"}, {"expr": "hunk.clone()", "call": "opq_clone_hunk(&hunk)"}, {"expr": "current_author.clone()", "call": "opq_clone_opt(&current_author)"}, {"expr": "line_authors.into_iter().flatten().next()", "call": "opq_first_some(line_authors)"}, {"expr": "hunk.filename.is_empty()", "call": "opq_is_empty(&hunk.filename)"}]'
     fn populate_ai_human_authors(
         &self,
         hunks: Vec<BlameHunk>,
@@ -784,6 +851,12 @@ impl Repository {
 
             // If we have an authorship log, look up human_author for each line
             if let Some(ref authorship_log) = authorship_log {
+                // The note of the originating commit lists the file under the path it had in THAT commit
+                let note_path = if opq_is_empty(&hunk.filename) {
+                    file_path
+                } else {
+                    hunk.filename.as_str()
+                };
                 // Collect human_author for each line in this hunk
                 let num_lines = hunk.range.1 - hunk.range.0 + 1;
                 let mut line_authors: Vec<Option<String>> = Vec::with_capacity(num_lines as usize);
@@ -797,7 +870,7 @@ impl Repository {
                     let human_author = if let Some((_author, _prompt_hash, Some(prompt_record))) =
                         authorship_log.get_line_attribution(
                             self,
-                            file_path,
+                            note_path,
                             orig_line_num,
                             &mut foreign_prompts_cache,
                         ) {
@@ -1339,9 +1412,9 @@ proof fn lemma_rec_ok_unique(n1: Seq<char>, n2: Seq<char>, rec: LineRec, file: S
 {
     match note_of(rec.h.commit) {
         Some(log) => {
-            let r1 = choose|r: Found| #[trigger] gla_post(log, file, rec.orig as u32, r) && n1 == shown(r, o, rec.h.author) && (r is Some ==> r.unwrap().1 is Some && pk1.contains(r.unwrap().1.unwrap()@));
-            let r2 = choose|r: Found| #[trigger] gla_post(log, file, rec.orig as u32, r) && n2 == shown(r, o, rec.h.author) && (r is Some ==> r.unwrap().1 is Some && pk2.contains(r.unwrap().1.unwrap()@));
-            lemma_shown_unique(log, file, rec.orig as u32, r1, r2, o, rec.h.author);
+            let r1 = choose|r: Found| #[trigger] gla_post(log, npath(rec.h, file), rec.orig as u32, r) && n1 == shown(r, o, rec.h.author) && (r is Some ==> r.unwrap().1 is Some && pk1.contains(r.unwrap().1.unwrap()@));
+            let r2 = choose|r: Found| #[trigger] gla_post(log, npath(rec.h, file), rec.orig as u32, r) && n2 == shown(r, o, rec.h.author) && (r is Some ==> r.unwrap().1 is Some && pk2.contains(r.unwrap().1.unwrap()@));
+            lemma_shown_unique(log, npath(rec.h, file), rec.orig as u32, r1, r2, o, rec.h.author);
         },
         None => {},
     }
@@ -1369,6 +1442,42 @@ proof fn theorem_range_restriction_changes_no_line(m: Map<u32, String>, f: Seq<L
     assert(m.contains_key(l) && m2.contains_key(l));
     lemma_rec_ok_unique(m[l]@, m2[l]@, f[lidx(f, l as int)], file, o, pk, pk2);
 }
+
+// ================================================================ prepare_blame_request: which ranges git is asked for
+/// an open range (`-L a`, `-L a,`: parse_line_range marks its end with to_eof) ends at the file's last line; other ranges are kept
+pub open spec fn close_end(r: (u32, u32), total: u32) -> (u32, u32) { if r.1 == to_eof() { (r.0, total) } else { r } }
+/// no -L at all: the whole file
+pub open spec fn asked_ranges(v: Seq<(u32, u32)>, total: u32) -> Seq<(u32, u32)> {
+    if v.len() == 0 { seq![(1u32, total)] } else { Seq::new(v.len(), |i: int| close_end(v[i], total)) }
+}
+/// `options.line_ranges.iter().map(|&(start, end)| if end == LINE_RANGE_TO_END_OF_FILE { (start, total_lines) } else { (start, end) }).collect()`:
+/// TRUSTED to be the element-wise close_end (iter/map/collect are outside the subset); the replay sweep runs the original expression
+#[verifier::external_body]
+fn opq_close_open_ends(v: &Vec<(u32, u32)>, total: u32) -> (r: Vec<(u32, u32)>)
+    ensures r@ == Seq::new(v@.len(), |i: int| close_end(v@[i], total)),
+{ unimplemented!() }
+//#item file=src/commands/blame.rs kind=region name=pb_ranges in=prepare_blame_request from="let line_ranges = if options.line_ranges.is_empty() {" to="=};" from_nth=0 to_nth=0 impl="Repository" opaque='[{"expr": "options\n                .line_ranges\n                .iter()\n                .map(|&(start, end)| {\n                    if end == LINE_RANGE_TO_END_OF_FILE {\n                        (start, total_lines)\n                    } else {\n                        (start, end)\n                    }\n                })\n                .collect()", "call": "opq_close_open_ends(&options.line_ranges, total_lines)"}]'
+//@ fn region_pb_ranges(options: &GitAiBlameOptions, total_lines: u32) -> (r_: Vec<(u32, u32)>)
+//@     ensures r_@ == asked_ranges(options.line_ranges@, total_lines),
+//@ {
+        let line_ranges = if options.line_ranges.is_empty() {
+            vec![(1, total_lines)]
+        } else {
+            // An open-ended range (`-L <start>`) ends at the last line of the file
+            opq_close_open_ends(&options.line_ranges, total_lines)
+        };
+//@     proof { assert(line_ranges@ =~= asked_ranges(options.line_ranges@, total_lines)); }
+//@     line_ranges
+//@ }
+//#end
+/// `-L a` alone and `-L a,` reach git as `a,<last line>` (git-blame(1): "spans from <start> to end of file"); `-L a,b` and
+/// `-L a,+n` (b, a+n-1 below the marker) are passed unchanged
+proof fn theorem_open_range_ends_at_last_line(s: Seq<char>, total: u32)
+    requires plr(s) is Some,
+    ensures
+        first_comma(s) is None ==> asked_ranges(seq![plr(s).unwrap()], total)[0] == (u32_of(s).unwrap(), total),
+        plr(s).unwrap().1 != to_eof() ==> asked_ranges(seq![plr(s).unwrap()], total)[0] == plr(s).unwrap(),
+{}
 
 } // verus!
 fn main() {}
